@@ -56,6 +56,68 @@ def cmpRHLoop : Nat → List Char → List Char → Ordering
           else (strCmp as bs).then (cmpRHLoop fuel a' b')
         else (strCmp as bs).then (cmpRHLoop fuel a' b')
 
+/-! ### as the Go code writes it, with the failing index sites (`none` = run-time panic)
+
+The positions `ai`, `bi` are represented by the rests `a[ai:]`, `b[bi:]` (so `ai < len(a)` is "the
+rest is not empty" and `a[ai]` is index 0 of the rest, which FAILS on an empty rest). -/
+
+/-- `for ai < len(a) && shouldBeTrimmed(rune(a[ai])) { ai++ }`; one unit of fuel per iteration -/
+def rhTrimGo : Nat → List Char → Option (List Char)
+  | 0, a => some a
+  | fuel + 1, a =>
+    if 0 < a.length then (goIndex a 0).bind fun c => if rhTrimmed c then rhTrimGo fuel a.tail else some a
+    else some a
+
+/-- `ai < len(a) && a[ai] == c` -/
+def startsWithGo (c : Char) (a : List Char) : Option Bool :=
+  if 0 < a.length then (goIndex a 0).bind fun x => some (decide (x = c)) else some false
+
+/-- the loop of `compareRedHatComponents` as written; `a[ai]` of step 7 (version-redhat.go:120) is
+reached only after `if ai == len(a) || bi == len(b) { break }` -/
+def cmpRHLoopGo : Nat → List Char → List Char → Option Ordering
+  | 0, _, _ => some .eq
+  | fuel + 1, a, b =>
+    (rhTrimGo (a.length + 1) a).bind fun a =>
+    (rhTrimGo (b.length + 1) b).bind fun b =>
+    (startsWithGo '~' a).bind fun aT =>
+    (startsWithGo '~' b).bind fun bT =>
+    if aT && bT then cmpRHLoopGo fuel a.tail b.tail
+    else if aT then some .lt
+    else if bT then some .gt
+    else
+      (startsWithGo '^' a).bind fun aC =>
+      (startsWithGo '^' b).bind fun bC =>
+      if aC && bC then cmpRHLoopGo fuel a.tail b.tail
+      else if aC then some (if b.isEmpty then .gt else .lt)
+      else if bC then some (if a.isEmpty then .lt else .gt)
+      else if a.isEmpty || b.isEmpty then some (ncmp a.length b.length)
+      else
+        (goIndex a 0).bind fun c0 =>
+        let isD := isDigit c0
+        let run : Char → Bool := if isD then isDigit else isLetter
+        let as := a.takeWhile run
+        let a' := a.dropWhile run
+        let bs := b.takeWhile run
+        let b' := b.dropWhile run
+        if bs.isEmpty then some (if isD then .gt else .lt)
+        else if isD then
+          let as := as.dropWhile (· = '0')
+          let bs := bs.dropWhile (· = '0')
+          if as.length > bs.length then some .gt
+          else if as.length < bs.length then some .lt
+          else thenGo (strCmp as bs) (cmpRHLoopGo fuel a' b')
+        else thenGo (strCmp as bs) (cmpRHLoopGo fuel a' b')
+
+def cmpRHCompGo (a b : List Char) : Option Ordering :=
+  if a.isEmpty && !b.isEmpty then some .lt
+  else if !a.isEmpty && b.isEmpty then some .gt
+  else cmpRHLoopGo (a.length + b.length + 2) a b
+
+/-- `redHatVersion.compare`: a later component is looked at only when the earlier ones are equal -/
+def cmpRHGo (v w : RHV) : Option Ordering :=
+  (cmpRHCompGo v.epoch w.epoch).bind fun d => thenGo d
+    ((cmpRHCompGo v.version w.version).bind fun d => thenGo d (cmpRHCompGo v.release w.release))
+
 /-- `compareRedHatComponents` -/
 def cmpRHComp (a b : List Char) : Ordering :=
   if a.isEmpty && !b.isEmpty then .lt
@@ -83,6 +145,6 @@ def parseRH (s : List Char) : RHV :=
   let epoch := if epoch.isEmpty then ['0'] else epoch
   ⟨epoch, version, release⟩
 
-def redhatFam : Family := ⟨RHV, fun s => .ok (parseRH s), fun v w => .ord (cmpRH v w)⟩
+def redhatFam : Family := ⟨RHV, fun s => .ok (parseRH s), fun v w => .ofGo (cmpRHGo v w)⟩
 
 end Scalibr.Semantic
